@@ -3,6 +3,9 @@ import CssVerif.Lemmas.OutSheetLayout
 import CssVerif.Lemmas.OutSep
 import CssVerif.Lemmas.OutEffect
 import CssVerif.Lemmas.OutSolid
+import CssVerif.Lemmas.OutFixes
+import CssVerif.Lemmas.OutEffectLeaf
+import CssVerif.Lemmas.OutPairs
 /-!
 # C06 — serializer preferences do exactly what they document, in every combination
 
@@ -101,12 +104,39 @@ example (p : Prefs) (hs : allWs p.spacer = true) :
       = [97] ++ gapOf p ++ [98, 92, 32] :=
   (words_are_separated p hs 1 t_IDENT [97] [98, 92, 32] (by decide) (by decide) (by decide)).1
 
-/-- … and for any number of words, on the list `Out.out` itself (no hypothesis on the record at all) -/
+/-- … and for any number of words, on the list `Out.out` itself. Since d39f9c4 `Out.append` looks at the last piece
+of the list: a piece `/` in front of a word that starts with `*` gets a blank (see `slash_star_kept_apart`), so the
+closed form is stated for a list that does not end in the single piece `/` and a spacer that is not the string `/`
+(no other hypothesis on the record). -/
 theorem every_word_is_followed_by_the_gap (p : Prefs) (il : Nat) (ty : CssVerif.Proto.Cps) (ht : GenericTy ty = true)
-    (ws : List CssVerif.Proto.Cps) (hw : ∀ w ∈ ws, Plain w = true) (o : O) :
+    (hsp : p.spacer ≠ [47]) (ws : List CssVerif.Proto.Cps) (hw : ∀ w ∈ ws, Plain w = true) (o : O)
+    (ho : o.head? ≠ some [47]) :
     runCalls p il (ws.map fun w => ({ v := .str w, ty := ty } : Call)) o
       = (ws.reverse.flatMap fun w => gapPieces p ++ [w]) ++ o :=
-  runCalls_words p il ty ht ws o hw
+  runCalls_words p il ty ht hsp ws o hw ho
+
+/-- **(repair d39f9c4)** `/` followed by a value that starts with `*`: the APPEND phase of `Out.append` puts one blank
+between them under EVERY preference record and whatever the flags (except `indent`, which no caller combines with
+such a value), so `/` + `*…` never opens a comment. -/
+theorem slash_star_kept_apart (p : Prefs) (il : Nat) (o : O) (w : CssVerif.Proto.Cps) (f : Fl) (hi : f.indent = false) :
+    appendMid p il ([47] :: o) (42 :: w) f = (42 :: w) :: [32] :: [47] :: o :=
+  appendMid_slash_star p il o w f hi
+
+/-- **(repair d39f9c4)** `=` after one of `* ~ | ^ $` (the attribute-selector operators `*=`, `~=`, `|=`, `^=`, `$=` are
+single tokens): one blank is kept between them under EVERY preference record. -/
+theorem op_equals_kept_apart (p : Prefs) (il : Nat) (o : O) (c : Nat) (hc : isAttrOp c = true) :
+    append p il ([c] :: o) (.str [61]) t_CHAR {} = [61] :: [32] :: [c] :: o :=
+  append_op_equals p il o c hc
+
+/-- `@x a/ *b;`: the former witness of the fusion (an unknown at-rule with the CHAR `/` followed by the CHAR `*`), under
+the default record and under the minified layout strings -/
+example :
+    doRule Prefs.default 0 0 (.unknown (.mk true [64, 120]
+      [.str t_S [32], .str t_IDENT [97], .str t_CHAR [47], .str t_CHAR [42], .str t_IDENT [98], .str t_CHAR [59]]))
+      = .ok [64, 120, 32, 97, 47, 32, 42, 32, 98, 59] ∧
+    doRule { Prefs.default with spacer := [], lineSeparator := [], indent := [] } 0 0 (.unknown (.mk true [64, 120]
+      [.str t_S [32], .str t_IDENT [97], .str t_CHAR [47], .str t_CHAR [42], .str t_IDENT [98], .str t_CHAR [59]]))
+      = .ok [64, 120, 32, 97, 47, 32, 42, 32, 98, 59] := ⟨rfl, rfl⟩
 
 /-- `+`, `>`, `~` (fix 9620553): a CHAR that is not a selector combinator item keeps ONE SPACE on each side under
 every preference record (so `1 + 2` never becomes `1+2`); a combinator item gets `selectorCombinatorSpacer`. -/
@@ -117,38 +147,148 @@ theorem plus_gt_tilde_spacing (p : Prefs) (il : Nat) (o : O) (c : Nat) (hc : c =
         :: (if isCombTy ty then p.selectorCombinatorSpacer else [32]) :: removeLastIfS o :=
   append_comb_char p il o c hc ty ht
 
-/-! ## T6.3 — the content filters are DOM transformations -/
+/-! ### no adjacent pair of lexemes fuses (token level of T6.2 for everything `Out.append` writes side by side) -/
 
-/-- T6.3 `content_effect` (rules; full statement: `project (parse (lex (ser p d))) = project (effect p d)` — the
-parse/lex half is C03's round trip, this is the serializer half): for EVERY preference record, serializing the sheet
-equals serializing the sheet from which the suppressed rules — comments (`keepComments`), unknown at-rules
-(`keepUnknownAtRules`), style rules whose block is written as the empty text (`keepEmptyRules`), unused namespace rules
-(`keepUsedNamespaceRulesOnly`) — have been removed at every nesting depth. One theorem over the whole record: all combinations at once. -/
+/-- T6.2, token level. `lexemes` = every punctuation character the tokenizer yields as CHAR plus one representative of
+every other token class that is handed to `Out.append` (46 lexemes, `Lemmas/OutPairs.lean`). Under the DEFAULT record
+every one of the 46 × 46 adjacent pairs, appended to a fresh `Out`, is written so that the tokenizer (model of C05)
+reads back exactly the tokens of the first followed by the tokens of the second: no pair fuses into another token
+(`/` `*` does not open a comment, `*` `=` is not `*=`, `#` `a` is not a HASH, `a` `(` not a FUNCTION, `1` `%` not a
+PERCENTAGE, `+` `1` not a signed number, `<` `!` … not CDO, …). Exhaustive over the list, one kernel evaluation per
+pair; for arbitrary words the gap is `words_are_separated`. -/
+theorem no_adjacent_pair_fuses_default (a b : Call) (ha : a ∈ lexemes) (hb : b ∈ lexemes) :
+    nonS (value (runCalls Prefs.default 1 [a, b]))
+      = nonS (value (runCalls Prefs.default 1 [a])) ++ nonS (value (runCalls Prefs.default 1 [b])) := by
+  have := pairs_default ha hb
+  simpa [pairOk] using this
+
+/-- … and under the layout strings of the MINIFIED preset (all spacers, indent and line separator empty) a pair fuses
+iff it is one of the four pairs of finding C06-op-equals-fusion (`*=`, `|=`, `^=`, `$=`): an exact characterisation. -/
+theorem adjacent_pairs_minified (a b : Call) (ha : a ∈ lexemes) (hb : b ∈ lexemes) :
+    (nonS (value (runCalls pMinLayout 1 [a, b]))
+        = nonS (value (runCalls pMinLayout 1 [a])) ++ nonS (value (runCalls pMinLayout 1 [b])))
+      ↔ knownFuse a b = false := by
+  have h := pairs_min ha hb
+  simp only [pairOk] at h
+  constructor
+  · intro e
+    have : (nonS (value (runCalls pMinLayout 1 [a, b]))
+        == nonS (value (runCalls pMinLayout 1 [a])) ++ nonS (value (runCalls pMinLayout 1 [b]))) = true := by
+      simpa using e
+    rw [this] at h
+    simpa using h.symm
+  · intro hk
+    rw [hk] at h
+    simpa using h
+
+/-- the lists are not empty: `/` and `*` are lexemes, and the pair is written `/ *` -/
+example : lx10 ∈ lexemes ∧ lx5 ∈ lexemes ∧ value (runCalls Prefs.default 1 [lx10, lx5]) = [47, 32, 42] := by
+  refine ⟨by simp [lexemes], by simp [lexemes], rfl⟩
+
+/-! ## T6.3 — the content preferences are DOM transformations -/
+
+/-- T6.3 `content_effect` (serializer half of `project (parse (lex (ser p d))) = project (effect p d)`; the parse/lex
+half is C03's round trip). For EVERY preference record, serializing the sheet equals serializing `effectSheet p s`, the
+sheet to which the documented effect of the content preferences has been applied as a transformation of the DOM, at
+every nesting depth:
+* removed: comment rules (`keepComments`), unknown at-rules (`keepUnknownAtRules`), style rules whose block is written
+  as the empty text and `@media` rules whose rules write nothing (`keepEmptyRules`), unused `@namespace` rules
+  (`keepUsedNamespaceRulesOnly`), `@variables` rules (`resolveVariables`);
+* rewritten leaves: the href type of `@import` (`importHrefFormat`), the literal at-keyword of every rule
+  (`defaultAtKeyword`), variable names (`normalizedVarNames`), and in every declaration block of a style, `@page`,
+  margin and `@font-face` rule the literal property names and priorities (`defaultPropertyName`,
+  `defaultPropertyPriority`) and the HASH items of values at every depth of functions (`minimizeColorHash`).
+One theorem over the whole record: all combinations at once.
+`_partial`: not expressed as DOM transformations — `keepAllProperties` (the selection `declSeq` is modelled and is
+applied before the loop; that it is idempotent is not proved), `var(x)` written as the value of `x` inside values
+(`var_written_as_its_value` below is the leaf statement), comments inside values and selectors; `omitLeadingZero` does
+not change the DOM at all (`omitLeadingZero_drops_the_zero_only`). -/
 theorem content_effect_rules_partial (p : Prefs) (sl : Nat) (s : Sheet) :
     doSheet p sl (effectSheet p s) = doSheet p sl s :=
   doSheet_effect p sl s
 
-/-- … and the transformed sheet really contains none of them at its top level -/
+/-- … and the transformed sheet is in normal form at its top level: none of the suppressed rules is left, and the
+leaves of every rule are the ones the preferences ask for (href type, keyword, variable names) -/
 theorem effect_removes_suppressed_rules (p : Prefs) (s : Sheet) :
-    ∀ r ∈ (effectSheet p s).rules, r.dropped p 0 = false ∧ nsDropped p s.usedUris r = false := by
+    ∀ r ∈ (effectSheet p s).rules,
+      r.dropped p 0 0 = false ∧ nsDropped p s.usedUris r = false ∧ r.leafNormal p = true := by
   intro r hr
-  refine ⟨effectRules_none_dropped p 0 _ r hr, ?_⟩
-  have := filter_ns_effectRules p 0 s.usedUris (s.rules.filter fun r => !nsDropped p s.usedUris r) (by
+  refine ⟨effectRules_none_dropped p 0 0 _ r hr, ?_, effectRules_leafNormal p 0 0 _ r hr⟩
+  have := filter_ns_effectRules p 0 0 s.usedUris (s.rules.filter fun r => !nsDropped p s.usedUris r) (by
     intro x hx
     have := (List.mem_filter.mp hx).2
     simpa using this)
-  have hr' : r ∈ (effectRules p 0 (s.rules.filter fun r => !nsDropped p s.usedUris r)).filter
+  have hr' : r ∈ (effectRules p 0 0 (s.rules.filter fun r => !nsDropped p s.usedUris r)).filter
       (fun r => !nsDropped p s.usedUris r) := by rw [this]; exact hr
   have := (List.mem_filter.mp hr').2
   simpa using this
 
-/-- T6.3 (declaration block): the loop of `do_css_CSSStyleDeclaration`, with `keepComments` and `validOnly` tested at
-the point of use, writes what it writes for the sequence without the suppressed items — every record at once.
-(Full statement also for `keepAllProperties`; the effective-property filter is applied before the loop, `declSeq`.) -/
+/-- T6.3 (declaration block, filters): the loop of `do_css_CSSStyleDeclaration`, with `keepComments` and `validOnly`
+tested at the point of use, writes what it writes for the sequence without the suppressed items — every record at
+once. (`_partial`: `keepAllProperties` — the effective-property filter is applied before the loop, `declSeq`.) -/
 theorem content_effect_declarations_partial (p : Prefs) (lv : Nat) (sep : CssVerif.Proto.Cps) (items : List DItem)
     (hm : ∀ it ∈ items, it.plainProp = true) :
     declOut p lv sep false items = declOut p lv sep false (items.filter fun it => !it.dropped p) :=
   declOut_filter p lv sep items hm
+
+/-- T6.3 (declaration block, leaves): `defaultPropertyName`, `defaultPropertyPriority` and `minimizeColorHash` are
+rewrites of the single properties of the block — literal name ↦ normalised name, literal priority ↦ normalised
+priority, `#aabbcc` ↦ `#abc` in the value — and the rewritten block serializes to the same text under EVERY record
+(the rewrite keeps the normalised names and priorities, so the `keepAllProperties` selection is not disturbed). -/
+theorem content_effect_block (p : Prefs) (lv : Nat) (items : List DItem) (om : Bool) :
+    doDecl p lv (effectDecl p items) om = doDecl p lv items om :=
+  doDecl_effectDecl p lv items om
+
+/-- `minimizeColorHash` as a rewrite of a value, at every depth of nested functions / colours / calc expressions; the
+rewritten HASH items are normal: `_hash` leaves them alone under every record -/
+theorem minimizeColorHash_is_a_value_rewrite (p : Prefs) (lv : Nat) (o : Obj) :
+    serObj p lv (effObj p o) = serObj p lv o ∧
+    (p.minimizeColorHash = true → ∀ (q : Prefs) (v : CssVerif.Proto.Cps), hash q (hash p v) = hash p v) :=
+  ⟨serObj_effObj p lv o, fun hp q v => hash_normal p q hp v⟩
+
+/-- `importHrefFormat` is the rewrite of the href type, also across records: under `p` the rule is written as the
+rule with the demanded href type is written under the record WITHOUT a format -/
+theorem importHrefFormat_is_the_href_rewrite (p : Prefs) (hs : Bool) (its : List EItem) :
+    importCalls p hs its = importCalls { p with importHrefFormat := none } (hrefEffect p hs) its := by
+  rw [importCalls_of_normal p (hrefEffect p hs) its (hrefEffect_idem p hs), importCalls_hrefEffect]
+
+/-- `defaultAtKeyword` is the rewrite of the literal keyword, also across records -/
+theorem defaultAtKeyword_is_the_keyword_rewrite (p : Prefs) (atk : CssVerif.Proto.Cps)
+    (kw : Option CssVerif.Proto.Cps) :
+    atKeyword p atk kw = atKeyword { p with defaultAtKeyword := false } atk (kwEffect p atk kw) := by
+  unfold atKeyword kwEffect
+  cases h : p.defaultAtKeyword <;> simp
+
+/-- `resolveVariables`, value level: a `var(x)` whose variable resolves to a non-empty text `v` that is a word
+(`Plain`: not a punctuation string, no trailing blank) is written as exactly `v`, under every record with a
+white-space spacer — the text of the variable's value stands where the `var()` stood -/
+theorem var_written_as_its_value (p : Prefs) (hr : p.resolveVariables = true) (hs : allWs p.spacer = true) (il : Nat)
+    (name v : CssVerif.Proto.Cps) (fb : EVal) (hn : name ≠ []) (hv : Plain v = true) :
+    varText p il name (.obj v) fb = v :=
+  varText_resolved p hr hs il name v fb hn hv
+
+example : Plain [114, 101, 100] = true := by decide   -- `red`
+
+/-- `omitLeadingZero` does not change the DOM: for a number `-1 < x < 1` whose `%f` text (zeros stripped) is
+`0.d…` / `-0.d…` the two settings differ exactly by that `0`; every other number is written the same. -/
+theorem omitLeadingZero_drops_the_zero_only (p : Prefs) (n : Num) :
+    (n.zero = false → n.intText = none → n.small = true →
+      ∀ r, stripZeros n.ftext = (if n.sign == [45] then 45 :: 48 :: r else 48 :: r) →
+        numText { p with omitLeadingZero := false } n
+            = (if n.sign == [43] then [43] else []) ++ (if n.sign == [45] then 45 :: 48 :: r else 48 :: r) ++ n.dim.getD [] ∧
+        numText { p with omitLeadingZero := true } n
+            = (if n.sign == [43] then [43] else []) ++ (if n.sign == [45] then 45 :: r else r) ++ n.dim.getD []) ∧
+    ((n.zero = true ∨ n.intText.isSome = true ∨ n.small = false) →
+      numText { p with omitLeadingZero := true } n = numText { p with omitLeadingZero := false } n) :=
+  numText_leading_zero p n
+
+/-- `0.5px`: facts `zero = false`, not integral, small, `%f` text `0.500000` -/
+example : numText { Prefs.default with omitLeadingZero := true }
+      { sign := [], zero := false, intText := none, small := true, ftext := [48, 46, 53, 48, 48, 48, 48, 48],
+        dim := some [112, 120] } = [46, 53, 112, 120] ∧
+    numText Prefs.default
+      { sign := [], zero := false, intText := none, small := true, ftext := [48, 46, 53, 48, 48, 48, 48, 48],
+        dim := some [112, 120] } = [48, 46, 53, 112, 120] := ⟨rfl, rfl⟩
 
 /-! ## T6.4 — the interactions named in the property -/
 
@@ -198,6 +338,11 @@ def exSheet : Sheet :=
   { usedUris := [],
     rules := [.style true true
       [.selector true [.mk [116] (.tup [97]), .mk [100] (.str [32]), .mk [116] (.tup [98])]] [.prop exProp]] }
+
+/-- `c: #aabbcc` is rewritten to `c: #abc` (and under a record that does not shorten it stays) -/
+example : effObj Prefs.default exProp.value
+    = .pvalue true [.mk [67] (.obj (.color t_HASH [.mk t_HASH (.str [35, 97, 98, 99])]))] := rfl
+example : effObj { Prefs.default with minimizeColorHash := false } exProp.value = exProp.value := rfl
 
 /-- the hypotheses of `layout_only` are satisfiable: a concrete record and sheet -/
 example : WsPrefs pTight ∧ ContentEq pTight Prefs.default ∧ pTight.lineNumbers = false := by
@@ -297,11 +442,52 @@ theorem finding_nth_plus_fusion :
         .mk [68] (.str [50, 110]), .mk t_plus (.str [43]), .mk [78] (.str [49]), .mk [102] (.str [41])])
       = [97, 58, 110, 116, 104, 45, 99, 104, 105, 108, 100, 40, 50, 110, 43, 49, 41] := rfl
 
-/-- **finding C06-hash-in-unknown-rule**: `minimizeColorHash` shortens every item of type HASH, also inside an unknown
-at-rule where it need not be a colour: `@x #aabbcc;` is written `@x #abc;` -/
-theorem finding_hash_in_unknown_rule :
+/-- **finding C06-op-equals-fusion**: the test of d39f9c4 looks at the last piece of the list; with an EMPTY spacer the
+piece after `*` is the empty spacer (the blank behind it is removed by `=`), so `*` + `=` fuse after all: `@x [a* =b];` is
+written `@x [a *=b];` under the minified layout strings, but `@x [a * =b];` under the default record. `~` is not
+affected (its blanks come from the `+>~` branch). -/
+theorem finding_op_equals_fusion_empty_spacer :
+    doRule pTight 0 0 (.unknown (.mk true [64, 120]
+      [.str t_S [32], .str t_CHAR [91], .str t_IDENT [97], .str t_CHAR [42], .str t_S [32], .str t_CHAR [61],
+       .str t_IDENT [98], .str t_CHAR [93], .str t_CHAR [59]]))
+      = .ok [64, 120, 32, 91, 97, 32, 42, 61, 98, 93, 59] ∧
+    doRule Prefs.default 0 0 (.unknown (.mk true [64, 120]
+      [.str t_S [32], .str t_CHAR [91], .str t_IDENT [97], .str t_CHAR [42], .str t_S [32], .str t_CHAR [61],
+       .str t_IDENT [98], .str t_CHAR [93], .str t_CHAR [59]]))
+      = .ok [64, 120, 32, 91, 97, 32, 42, 32, 61, 98, 93, 59] := ⟨rfl, rfl⟩
+
+/-- **(was finding C06-hash-in-unknown-rule, repaired in f99aded)** `minimizeColorHash` does not reach an unknown
+at-rule: its text is the same whether the preference is on or off, for EVERY rule (any nesting of blocks and nested
+unknown rules) and every record — `do_CSSUnknownRule` passes a HASH item with type `None`, so `Out.append` never
+sends it through `_hash`. -/
+theorem hash_in_unknown_rule_kept_as_written (p : Prefs) (b : Bool) (lv : Nat) (u : URule) :
+    doURule (p.withHash b) lv u = doURule p lv u :=
+  doURule_withHash p b lv u
+
+/-- the former witness: `@x #aabbcc;` is written `@x #aabbcc;` -/
+example :
     doRule Prefs.default 0 0 (.unknown (.mk true [64, 120]
       [.str t_S [32], .str t_HASH [35, 97, 97, 98, 98, 99, 99], .str t_CHAR [59]]))
-      = .ok [64, 120, 32, 35, 97, 98, 99, 59] := rfl
+      = .ok [64, 120, 32, 35, 97, 97, 98, 98, 99, 99, 59] := rfl
+
+/-- **(repair ec62b69)** page selector: a page name `a`, a comment `c` and a pseudo-page `ps` are written with
+NOTHING between them, under EVERY record that keeps comments and has a white-space spacer (`Plain`: a word — not a
+punctuation string, no unescaped trailing blank; `ty3` any generic type other than IDENT, the parser uses `pseudo`).
+Before the repair the text was `a /*c*/ :first`, which reparses as a page named `a` plus stray tokens. -/
+theorem page_name_comment_pseudo_unspaced (p : Prefs) (hk : p.keepComments = true) (hs : allWs p.spacer = true)
+    (il : Nat) (a c ps ty3 : CssVerif.Proto.Cps) (ha : Plain a = true) (hc : Plain c = true) (hps : Plain ps = true)
+    (ht3 : GenericTy ty3 = true) (hni : (ty3 == t_IDENT) = false) :
+    value (runCalls p il (pageSelCalls [(t_IDENT, .str a), (t_COMMENT, .obj c), (ty3, .str ps)])) = a ++ c ++ ps :=
+  pageSel_name_comment_pseudo p hk hs il a c ps ty3 ha hc hps ht3 hni
+
+/-- the hypotheses are satisfiable: `a`, `/*c*/`, `:f` with type `p`; and a comment BEFORE the name keeps its space
+(`named` is still false) -/
+example : Plain [97] = true ∧ Plain [47, 42, 99, 42, 47] = true ∧ Plain [58, 102] = true ∧ GenericTy [112] = true ∧
+    value (runCalls pTight 1 (pageSelCalls
+      [(t_IDENT, .str [97]), (t_COMMENT, .obj [47, 42, 99, 42, 47]), ([112], .str [58, 102])]))
+      = [97, 47, 42, 99, 42, 47, 58, 102] ∧
+    value (runCalls Prefs.default 1 (pageSelCalls
+      [(t_COMMENT, .obj [47, 42, 99, 42, 47]), (t_IDENT, .str [97]), ([112], .str [58, 102])]))
+      = [47, 42, 99, 42, 47, 32, 97, 58, 102] := ⟨by decide, by decide, by decide, by decide, rfl, rfl⟩
 
 end CssVerif.C06
